@@ -215,7 +215,7 @@ impl Prop for C04 {
         vec!["messages beyond ~2*(2^24-1)+70000 bytes are not explored".into()]
     }
     fn cases(&self, tier: Tier) -> u64 {
-        tier.pick(4_000, 60_000)
+        tier.pick(30000, 300000)
     }
     fn choice_len(&self) -> usize {
         64
